@@ -75,6 +75,8 @@ class Engine(EngineBase):
         ops = []
         depth = 0
         n = rng.randrange(5, 40)
+        # share of operations through kept references / side copies (swarm: most runs few, some runs many)
+        heldw = rng.choice([0.08, 0.08, 0.4])
         for _ in range(n):
             t = rng.randrange(ntargets)
             h = rng.randrange(nh[t])
@@ -104,6 +106,19 @@ class Engine(EngineBase):
                 continue
             if kind == "stale" and r < 0.28:
                 ops.append([rng.choice(["probe_none_over_nested", "probe_type_flip"]), t])
+                continue
+            if r > 1 - heldw:
+                # references kept by the caller (the document object, or a nested mapping of it) and used
+                # later; and handles copied / pickled on the side, which must not disturb the original
+                k2 = rng.choice(["hold", "hold", "held_set", "held_set", "held_set", "side_copy"])
+                if k2 == "hold":
+                    ops.append([k2, t, h, rng.choice(["doc", "d", "d"])])
+                elif k2 == "held_set":
+                    which = rng.choice(["doc", "d", "d"])
+                    ops.append([k2, t, h, which, key if which == "doc" else rng.choice(["x", "y", "w"]),
+                                gen_val(rng, key) if which == "doc" else rng.choice([1, 2, 5, "s"])])
+                else:
+                    ops.append([k2, t, h, rng.choice(["copy", "pickle"])])
                 continue
             k = rng.choice(["set", "set", "set", "setattr", "del", "update", "setdefault", "pop", "clear",
                             "reset", "nested_set", "nested_set", "list_op", "list_op", "read", "read",
@@ -139,6 +154,19 @@ class Engine(EngineBase):
             else:
                 ops.append([k, t, h])
         ops += [["exit"]] * depth
+        if kind == "buffer" and rng.random() < 0.08:
+            # a constellation random histories rarely line up: inside one block a reference is kept, the
+            # handle is copied / pickled on the side, the handle is used again, and the last write of the
+            # block goes through the kept reference
+            t = rng.randrange(ntargets)
+            h = rng.randrange(nh[t])
+            which = rng.choice(["doc", "d"])
+            if which == "d":
+                ops.append(["set", t, h, "d", {"x": 1}])
+            ops += [["enter", None], ["hold", t, h, which], ["side_copy", t, h, rng.choice(["copy", "pickle"])],
+                    rng.choice([["read", t, h], ["setdefault", t, h, "s", "a"], ["read", t, h]]),
+                    ["held_set", t, h, which, "y" if which == "d" else "i",
+                     rng.choice([1, 2, 5, "s"]) if which == "d" else gen_val(rng, "i")], ["exit"]]
         # further handles on a job are independently opened ones, or copies of the first handle (made
         # before or after that one has touched its document)
         hkinds = [[rng.choice(["open", "open", "open", "copy", "deepcopy", "deepcopy_touched", "pickle_touched"])
@@ -209,6 +237,7 @@ class World:
     def make_handles(self):
         sc = self.run.sc
         self.handles = []
+        self.held = {}  # (target, handle) -> {"doc": document object, "d": nested mapping} kept by the caller
         for t in range(sc["ntargets"]):
             hs = []
             for hi in range(sc["nh"][t]):
@@ -378,6 +407,37 @@ class Run:
                 self.block_coarse()
                 self.probe("restart_inside_block")
             return
+        if k == "side_copy":
+            t, h = op[1], op[2]
+            if t == self.sc["ntargets"] - 1:
+                return
+            import copy
+            import pickle
+            try:
+                copy.copy(w.handles[t][h]) if op[3] == "copy" else pickle.dumps(w.handles[t][h])
+            except Exception as e:  # noqa: BLE001
+                raise Mismatch("C05", "C05:side_copy:raised", f"world {w.mode}: {op} raised {type(e).__name__}: {e}")
+            self.probe("side_copy")
+            return
+        if k == "hold":
+            t, h = op[1], op[2]
+            if op[3] == "d" and not isinstance(self.model[t].get("d"), dict):
+                return
+            self.step(["read", t, h], w)
+            ref = w.doc(t, h)
+            w.held.setdefault((t, h), {})[op[3]] = ref if op[3] == "doc" else ref["d"]
+            self.probe("hold_" + op[3])
+            return
+        if k in ("remove_reinit", "rekey"):
+            w.held = {kk: v for kk, v in w.held.items() if kk[0] != op[1]}
+        elif (k not in ("nested_set", "held_set", "read", "list_op", "bad_key", "bad_val", "enter", "exit",
+                        "capacity", "probe_none_over_nested", "probe_type_flip")
+              or (k == "held_set" and op[3] == "doc")):
+            # anything that may replace the nested mapping detaches a kept reference to it (for every handle
+            # of that document, and for assign_from's source nothing changes)
+            for kk in w.held:
+                if kk[0] == op[1]:
+                    w.held[kk].pop("d", None)
         if k in ("remove_reinit", "rekey", "probe_none_over_nested", "probe_type_flip"):
             try:
                 getattr(self, "x_" + k)(op, w)
@@ -416,7 +476,7 @@ class Run:
         try:
             # (a whole assignment goes through the property setter of the job / project: the document
             # object must not have been fetched by the harness first)
-            got = self.real_apply(None if k in ("whole_assign", "assign_from") else w.doc(t, h), op, w, t, h)
+            got = self.real_apply(None if k in ("whole_assign", "assign_from", "held_set") else w.doc(t, h), op, w, t, h)
         except Exception as e:  # noqa: BLE001
             exc = e
         self.expect(w, op, exc, want_exc)
@@ -433,12 +493,20 @@ class Run:
             if k == "assign_from":
                 self.blk["view"][(op[3], 0)] = copy.deepcopy(self.model[op[3]])
         # the writing handle always sees its own writes
+        want_seen = self.model[t]
         try:
-            seen = w.doc(t, h)()
+            ref = w.held.get((t, h), {}).get(op[3]) if k == "held_set" else None
+            if ref is not None:
+                # the write went through a kept reference: that reference is the writing handle
+                seen = ref()
+                if op[3] == "d":
+                    want_seen = self.model[t]["d"]
+            else:
+                seen = w.doc(t, h)()
         except Exception as e:  # noqa: BLE001
             raise Mismatch("C05", "C05:read-back:raised", f"world {w.mode}: after {op} reading back raised "
                            f"{type(e).__name__}: {e}")
-        if not same(seen, self.model[t]):
+        if not same(seen, want_seen):
             raise Mismatch("C05", "C05:read-back:writing-handle",
                            f"world {w.mode} ({'buffered' if w.depth() else 'unbuffered'}): after {op} the "
                            f"writing handle shows {str(seen)[:140]}, a dict would hold "
@@ -550,6 +618,13 @@ class Run:
             if not isinstance(m.get("d"), dict):
                 return "_Skip", d, None
             m["d"][op[3]] = op[4]
+        elif k == "held_set":
+            if op[3] == "doc":
+                m[op[4]] = norm(op[5])
+            else:
+                if not isinstance(m.get("d"), dict):
+                    return "_Skip", d, None
+                m["d"][op[4]] = op[5]
         elif k == "list_op":
             lst = m.get("l")
             if not isinstance(lst, list):
@@ -601,6 +676,16 @@ class Run:
             if not isinstance(self.model[t].get("d"), dict):
                 raise _Skip()
             doc["d"][op[3]] = op[4]
+        elif k == "held_set":
+            ref = w.held.get((t, h), {}).get(op[3])
+            if op[3] == "doc":
+                (ref if ref is not None else w.doc(t, h))[op[4]] = op[5]
+            else:
+                if not isinstance(self.model[t].get("d"), dict):
+                    raise _Skip()
+                (ref if ref is not None else w.doc(t, h)["d"])[op[4]] = op[5]
+            if ref is not None:
+                self.probe("held_ref_used_" + op[3])
         elif k == "list_op":
             if not isinstance(self.model[t].get("l"), list):
                 raise _Skip()
